@@ -3,6 +3,10 @@ import json
 import os
 from .core import VERIF
 
+MODEL_NOTE = ("Trusted: Lean kernel; the layer-B/Compile model is hand-written and tied to the Python code by the K1/K2 differential run "
+              "(every step outcome and the property's projection of every MIR compared on this run's generated programs), so the claim "
+              "about the real code is proof about the model + sampling of the tie; known findings mask only their listed signature.")
+
 CHECKS = {
     "C02": dict(
         text="Lean theorem `scalarTable_ok` (decide +kernel) over the complete operator x type-tuple table that translator T1 "
@@ -25,6 +29,54 @@ CHECKS = {
              "Lean Bool spec evaluated on every model MIR, not yet by a theorem.",
         technique="Lean 4 proof by induction over the traversal + kernel-decided schema table, model tied by differential testing",
         design="6 C01"),
+    "C03": dict(
+        text="Lean `table_no_declass` (decide +kernel) over the complete operator table regenerated from the running classes (T1): no "
+             "accepted application other than to_public/public_equals is typed less secret than an operand, random() is secret, MIR "
+             "names record secrecy faithfully; closed-form no-declassification theorems for all operators and types. Whole-MIR level: a "
+             "taint analysis (sources: secret inputs and Random; sinks: every typed scalar leaf, component-wise through containers and "
+             "function bindings) runs on every real MIR of the differential run; the whole-program Lean theorem is not proved yet.",
+        note=MODEL_NOTE, technique="Lean 4 proof by kernel evaluation over a regenerated table + case analysis; taint oracle on real MIRs",
+        design="6 C03"),
+    "C04": dict(
+        text="Lean `schema_roundtrip` (decide +kernel over the T6/T7 tables regenerated from store_in_ast / to_mir): every operand a wrapper "
+             "holds reaches its MIR key, in order; per-command theorems for all register files and states (operand order of binary "
+             "operations and if_else, fresh node per executed operation, rejected operations change nothing). The whole-program statement "
+             "is decided by an oracle that matches the expression DAG written by the program (built from the command list alone) against "
+             "every real MIR with a node<->id bijection (sharing included).",
+        note=MODEL_NOTE, technique="Lean 4 proof (kernel-decided schema composition, simp over the trace model) + DAG-matching oracle",
+        design="6 C04"),
+    "C05": dict(
+        text="Lean `toMir_complete` by mutual structural induction over arbitrarily nested DSL values: to_mir() of a value with positive "
+             "sizes and no TypeVar is a complete Nada type; edge rules of zip/unzip/map/new as theorems for all sizes and element types; "
+             "scalar edges via the regenerated table (`scalarTable_eq_model`); outputs carry their operation's type. An edge-consistency "
+             "oracle re-derives every operation's type from its operands' recorded types on every real MIR.",
+        note=MODEL_NOTE, technique="Lean 4 proof by mutual structural induction + kernel-decided table; type re-derivation oracle",
+        design="6 C05"),
+    "C09": dict(
+        text="Lean theorems for every store and output list (induction over the iterative DFS / function worklist of the compile model): "
+             "no dead operation in any emitted table (reachability from outputs / return operation), nothing missing (closure, roots "
+             "present), no id twice, entries are the store's own records. List-level clauses (functions/inputs/literals/parties exactly "
+             "the referenced ones, literal entries carry the written value, distinct pairs distinct entries) are the executable spec "
+             "`Spec.exact`, evaluated on every model MIR and mirrored by the oracle on every real MIR.",
+        note=MODEL_NOTE + " md5 of the literal key is assumed collision-free on the keys that occur.",
+        technique="Lean 4 proof by induction over the traversal; exactness oracle on real MIRs", design="6 C09"),
+    "C10": dict(
+        text="Lean theorems about the compile model: outputs are emitted in declaration order with name, party and designated operation; a "
+             "second different input under a used name is rejected whatever parties own them; accepting an input lists its party. Oracle: "
+             "every real MIR's inputs/outputs/parties against the declarations in the command list; non-Nada outputs are probed.",
+        note=MODEL_NOTE, technique="Lean 4 proof by induction over the output list + interface oracle", design="6 C10"),
+    "C11": dict(
+        text="Lean `schema_roundtrip` over regenerated T6/T7 tables (function -> fn/function_id, arguments in call order, parameter names) "
+             "and theorems about the trace model for all register files and states: call/reduce/map bindings, arity and literal-type "
+             "restrictions, the stored function record. Oracle: signatures and site bindings of every real MIR against the definitions and "
+             "call sites in the command list; each function emitted once.",
+        note=MODEL_NOTE, technique="Lean 4 proof (kernel-decided schema tables, simp over the trace model) + binding oracle", design="6 C11"),
+    "C12": dict(
+        text="Lean theorems about the trace model for all register files, states, sizes (Option Int), element types, indices and keys: "
+             "size mismatch, non-integer inner product, empty / mixed Array.new, out-of-range index, undeclared field are rejected without "
+             "any state change; an accepted index is recorded in 0..n-1; result type rules of zip/unzip/map/new. Oracle: the real step "
+             "outcomes against preconditions computed from the real operands, and collection edges of every real MIR.",
+        note=MODEL_NOTE, technique="Lean 4 proof (simp/omega over the trace model) + precondition oracle on the real code", design="6 C12"),
     "C06": dict(
         text="Lean theorems for all Int / Bool operands about the folding term regenerated syntactically (T2) from the lambdas, helper "
              "CONSTANT-cases and literal constructors of scalar_types.py: exact +,-,*,**,<<,>>, comparisons, connectives, and the "
